@@ -26,19 +26,20 @@ fn cleanup_on_abort(world: &mut World, setup: SystemCommandSetup, cleanup: Syste
 pub(crate) struct SystemCommandSetup
 {
     reactor: SystemCommand,
-    setup: fn(&mut World, SystemCommand),
+    ticket: u64,
+    setup: fn(&mut World, SystemCommand, u64),
 }
 
 impl SystemCommandSetup
 {
-    pub(crate) fn new(reactor: SystemCommand, setup: fn(&mut World, SystemCommand)) -> Self
+    pub(crate) fn new(reactor: SystemCommand, ticket: u64, setup: fn(&mut World, SystemCommand, u64)) -> Self
     {
-        Self { reactor, setup }
+        Self { reactor, ticket, setup }
     }
 
     fn run(self, world: &mut World)
     {
-        (self.setup)(world, self.reactor);
+        (self.setup)(world, self.reactor, self.ticket);
     }
 }
 
@@ -48,7 +49,8 @@ impl Default for SystemCommandSetup
     {
         Self{
             reactor: SystemCommand(Entity::PLACEHOLDER),
-            setup: |_, _| {}
+            ticket: 0,
+            setup: |_, _, _| {}
         }
     }
 }
